@@ -490,44 +490,36 @@ Proof.
     inversion Ho; inversion Hw; subst. eapply nth_error_In; eassumption.
 Qed.
 
-(* the choice-item form when no probability is 0 or missing *)
-Lemma random_choice_choices_partial items num den :
-  Forall (fun it => exists p, fst it = Some p /\ 0 < p) items -> items <> [] -> 0 <= num < den ->
+(* the choice-item form: probabilities present, >= 0, not all 0: an item with probability 0 is
+   never picked (and is no error) *)
+Lemma random_choice_choices items num den :
+  Forall (fun it => exists p, fst it = Some p /\ 0 <= p) items ->
+  0 < zsum (map (fun it => match fst it with Some p => p | None => 0 end) items) ->
+  0 <= num < den ->
   exists o p, random_choice (RCChoices items) (Some num) den = Ok o /\ In (Some p, o) items /\ 0 < p.
 Proof.
-  intros Hall Hne Hnum.
-  set (zs := map (fun it => match fst it with Some p => p | None => 0 end) items).
+  intros Hall Htot Hnum.
+  set (zs := map (fun it => match fst it with Some p => p | None => 0 end) items) in *.
   assert (Hws : rc_weights (RCChoices items) = map Some zs).
   { cbn [rc_weights]. subst zs. rewrite map_map. apply map_ext_in.
     intros it Hin. rewrite Forall_forall in Hall. destruct (Hall it Hin) as (p & Hp & Hp0).
-    rewrite Hp. cbn [choice_weight]. destruct (p =? 0) eqn:E; [contra|reflexivity]. }
-  assert (Hpos : Forall (fun z => 0 < z) zs).
+    rewrite Hp. reflexivity. }
+  assert (Hpos : Forall (fun z => 0 <= z) zs).
   { subst zs. rewrite Forall_map. rewrite Forall_forall in *. intros it Hin.
     destruct (Hall it Hin) as (p & -> & Hp0). assumption. }
-  assert (Hpos' : Forall (fun z => 0 <= z) zs).
-  { rewrite Forall_forall in *. intros z Hz. specialize (Hpos z Hz). lia. }
-  assert (Htot : 0 < zsum zs).
-  { destruct zs as [|z r] eqn:Ez.
-    - subst zs. destruct items; [congruence|discriminate].
-    - inversion Hpos as [|? ? Hz Hr]; subst.
-      assert (0 <= zsum r).
-      { clear -Hr. induction r as [|y r IH]; cbn [zsum fold_right]; [lia|].
-        inversion Hr; subst. specialize (IH ltac:(assumption)). unfold zsum in IH. lia. }
-      cbn [zsum fold_right]. unfold zsum in *. lia. }
-  destruct (random_choice_support (RCChoices items) zs num den I Hws Hpos' Htot Hnum)
+  destruct (random_choice_support (RCChoices items) zs num den I Hws Hpos Htot Hnum)
     as (i & o & w & Hr & Ho & Hw & Hw0).
   cbn [rc_options] in Ho. subst zs. rewrite nth_error_map in Ho, Hw.
   destruct (nth_error items i) as [[p' o']|] eqn:Ei; cbn in Ho, Hw; try discriminate.
   rewrite Forall_forall in Hall.
   destruct (Hall (p', o') ltac:(eapply nth_error_In; eassumption)) as (p & Hp & Hp0).
-  cbn in Hp. subst p'. inversion Ho; subst o'.
+  cbn in Hp. subst p'. inversion Ho; subst o'. inversion Hw; subst w.
   exists o, p. splits; try assumption. eapply nth_error_In; eassumption.
 Qed.
 
-(* KNOWN FINDING C11-K12: in the choice-item form a probability of 0 is turned into a missing
-   weight, and the call fails for every draw instead of never picking that item *)
-Lemma random_choice_zero_probability_fails items d den :
-  In (Some 0) (map fst items) -> random_choice (RCChoices items) d den = type_error.
+(* a missing probability is still an error for every draw *)
+Lemma random_choice_missing_probability items d den :
+  In None (map fst items) -> random_choice (RCChoices items) d den = type_error.
 Proof.
   intros H. destruct items as [|it r]; [destruct H|].
   cbn [random_choice]. apply weighted_choice_none.
@@ -667,71 +659,79 @@ Proof.
   replace (Z.max b (a + 1)) with b in * by lia. assumption.
 Qed.
 
-Lemma datetime_fn_wall c sp ps :
+Lemma parse_off_some c sp ps : parse_datetimespec c sp = Ok ps -> exists o, off ps = Some o.
+Proof.
+  destruct sp as [| |[w [o|]]|d|y mo w d h mi x|]; cbn [parse_datetimespec off]; intros H;
+    inversion H; subst; cbn [off]; eauto.
+Qed.
+
+(* normalisation keeps the instant the user wrote, for every specification *)
+Lemma datetime_fn_instant c sp ps :
   parse_datetimespec c sp = Ok ps ->
-  datetime_fn c sp = Ok (mkStamp (wall ps) (Some 0)) /\
-  instant (mkStamp (wall ps) (Some 0)) = wall ps.
+  exists s', datetime_fn c sp = Ok s' /\ instant s' = instant ps /\ off s' = Some 0.
 Proof.
-  intros H. unfold datetime_fn. rewrite H. cbn [bind]. split; [reflexivity|].
-  unfold instant. cbn [wall off]. lia.
+  intros H. destruct (parse_off_some c sp ps H) as (o & Ho).
+  unfold datetime_fn. rewrite H. cbn [bind]. rewrite Ho.
+  eexists. splits; [reflexivity| |reflexivity].
+  unfold instant at 1. cbn [wall off]. lia.
 Qed.
 
-(* the result as coded: between the wall-clock readings (offsets dropped, start truncated to
-   a whole second, at least one second wide) *)
-Lemma datetime_between_coded c s e tz num den s' e' :
-  datetime_fn c s = Ok s' -> datetime_fn c e = Ok e' -> 0 <= num < den ->
-  (instant e' < instant s' -> forall d, exists m, datetime_between c s e tz d den = Err (DGE m)) /\
-  (instant s' <= instant e' ->
-     exists v, datetime_between c s e tz (Some num) den = Ok (v, tz) /\
-               dt_coded_lo s' <= v <= dt_coded_hi s' e').
+(* min(max(rc, lo), hi) lies in [lo, hi] whatever Faker returned *)
+Lemma clamp_between rc lo hi tz :
+  lo <= hi -> lo <= fst (clamp rc lo hi tz) <= hi /\
+              (snd (clamp rc lo hi tz) = tz \/ snd (clamp rc lo hi tz) = Some 0).
 Proof.
-  intros Hs He Hnum. unfold datetime_between. rewrite Hs, He. cbn [bind]. split.
-  - intros Hlt d. destruct (instant e' <? instant s') eqn:E; [|contra]. eexists; reflexivity.
-  - intros Hle. destruct (instant e' <? instant s') eqn:E; [contra|].
+  intros H. unfold clamp.
+  destruct (rc <? lo) eqn:E1.
+  - destruct (hi <? lo) eqn:E2; [contra|]. cbn [fst snd]. split; [lia|auto].
+  - destruct (hi <? rc) eqn:E2; cbn [fst snd]; split; try lia; auto.
+Qed.
+
+(* the value is Faker's own whenever that already lies inside the bounds *)
+Lemma clamp_id rc lo hi tz : lo <= rc <= hi -> clamp rc lo hi tz = (rc, tz).
+Proof.
+  intros H. unfold clamp. destruct (rc <? lo) eqn:E1; [contra|].
+  destruct (hi <? rc) eqn:E2; [contra|reflexivity].
+Qed.
+
+(* THE PROPERTY for datetime_between: every pair of bounds (offsets, fractional seconds, equal),
+   every draw, every presentation zone: start <= v <= end as the instants the user wrote;
+   reversed bounds are a DataGenError *)
+Lemma datetime_between_bounds c s e t num den ps pe :
+  parse_datetimespec c s = Ok ps -> parse_datetimespec c e = Ok pe -> 0 <= num < den ->
+  (instant pe < instant ps ->
+     forall tz d, exists m, datetime_between c s e tz d den = Err (DGE m)) /\
+  (instant ps <= instant pe ->
+     exists v o, datetime_between c s e (Some t) (Some num) den = Ok (v, o) /\
+                 instant ps <= v <= instant pe /\ (o = Some t \/ o = Some 0)).
+Proof.
+  intros Hs He Hnum.
+  destruct (datetime_fn_instant c s ps Hs) as (s' & Hds & His & _).
+  destruct (datetime_fn_instant c e pe He) as (e' & Hde & Hie & _).
+  unfold datetime_between. rewrite Hds, Hde. cbn [bind]. rewrite His, Hie. split.
+  - intros Hlt tz d. destruct (instant pe <? instant ps) eqn:E; [|contra]. eexists; reflexivity.
+  - intros Hle. destruct (instant pe <? instant ps) eqn:E; [contra|].
     cbn [draw_below]. destruct ((0 <=? num) && (num <? den)) eqn:En; [|contra].
-    eexists. split; [reflexivity|].
-    unfold dt_coded_lo, dt_coded_hi. apply faker_dt_between_coded; [|assumption].
-    unfold floor_sec, US. apply Z.div_le_mono; lia.
+    set (rc := faker_dt_between _ _ _ _).
+    destruct (clamp_between rc (instant ps) (instant pe) (Some t) Hle) as (Hb & Ho).
+    exists (fst (clamp rc (instant ps) (instant pe) (Some t))),
+           (snd (clamp rc (instant ps) (instant pe) (Some t))).
+    splits; try lia; try assumption.
+    rewrite <- surjective_pairing. reflexivity.
 Qed.
 
-(* the written instant survives normalisation iff no offset was written *)
-Lemma datetime_fn_instant c sp ps s' :
-  parse_datetimespec c sp = Ok ps -> datetime_fn c sp = Ok s' ->
-  instant s' = instant ps + match off ps with Some o => o * US | None => 0 end.
+(* on whole-second starts with the end in a later second the clamp is the identity: the value is
+   the one Faker drew *)
+Lemma datetime_between_unclamped c s e t num den ps pe :
+  parse_datetimespec c s = Ok ps -> parse_datetimespec c e = Ok pe -> 0 <= num < den ->
+  instant ps mod US = 0 -> floor_sec (instant ps) < floor_sec (instant pe) ->
+  datetime_between c s e (Some t) (Some num) den =
+    Ok (faker_dt_between (floor_sec (instant ps)) (floor_sec (instant pe)) num den, Some t).
 Proof.
-  intros Hp Hd. destruct (datetime_fn_wall c sp ps Hp) as (Hd' & Hi).
-  rewrite Hd in Hd'. inversion Hd'; subst s'. rewrite Hi. unfold instant.
-  destruct (off ps); lia.
-Qed.
-
-Definition offset_free (s : stamp) : Prop := off s = Some 0 \/ off s = None.
-
-Lemma instants_preserved c sp ps s' :
-  parse_datetimespec c sp = Ok ps -> datetime_fn c sp = Ok s' -> offset_free ps ->
-  instant s' = instant ps.
-Proof.
-  intros Hp Hd Hof. rewrite (datetime_fn_instant c sp ps s' Hp Hd).
-  destruct Hof as [-> | ->]; lia.
-Qed.
-
-(* the property, on the inputs where it holds: no offsets written, start on a whole second,
-   end in a later second *)
-Lemma datetime_between_bounds_partial c s e tz num den ps pe :
-  parse_datetimespec c s = Ok ps -> parse_datetimespec c e = Ok pe ->
-  offset_free ps -> offset_free pe ->
-  instant ps mod US = 0 ->
-  floor_sec (instant ps) < floor_sec (instant pe) ->
-  0 <= num < den ->
-  exists v, datetime_between c s e tz (Some num) den = Ok (v, tz) /\
-            instant ps <= v <= instant pe.
-Proof.
-  intros Hs He Hfs Hfe Hwhole Hlater Hnum.
-  destruct (datetime_fn_wall c s ps Hs) as (Hds & His).
-  destruct (datetime_fn_wall c e pe He) as (Hde & Hie).
-  pose proof (instants_preserved c s ps _ Hs Hds Hfs) as Hps.
-  pose proof (instants_preserved c e pe _ He Hde Hfe) as Hpe.
-  unfold datetime_between. rewrite Hds, Hde. cbn [bind].
-  rewrite Hps, Hpe.
+  intros Hs He Hnum Hwhole Hlater.
+  destruct (datetime_fn_instant c s ps Hs) as (s' & Hds & His & _).
+  destruct (datetime_fn_instant c e pe He) as (e' & Hde & Hie & _).
+  unfold datetime_between. rewrite Hds, Hde. cbn [bind]. rewrite His, Hie.
   pose proof (floor_sec_bounds (instant ps)) as Hbs.
   pose proof (floor_sec_bounds (instant pe)) as Hbe.
   assert (Hstart : floor_sec (instant ps) * US = instant ps).
@@ -739,8 +739,23 @@ Proof.
   destruct (instant pe <? instant ps) eqn:E.
   { exfalso. apply Z.ltb_lt in E. unfold US in *. lia. }
   cbn [draw_below]. destruct ((0 <=? num) && (num <? den)) eqn:En; [|contra].
-  eexists. split; [reflexivity|].
-  pose proof (faker_dt_between_closed _ _ num den Hlater Hnum). unfold US in *. lia.
+  pose proof (faker_dt_between_closed _ _ num den Hlater Hnum).
+  rewrite clamp_id; [reflexivity|]. unfold US in *. lia.
+Qed.
+
+(* KNOWN FINDING C11-K13 (introduced by the clamp): with timezone: False Faker's naive result is
+   compared with the aware bounds: every valid range fails, for every draw *)
+Lemma datetime_between_naive_fails c s e num den ps pe :
+  parse_datetimespec c s = Ok ps -> parse_datetimespec c e = Ok pe -> 0 <= num < den ->
+  instant ps <= instant pe ->
+  datetime_between c s e None (Some num) den = type_error.
+Proof.
+  intros Hs He Hnum Hle.
+  destruct (datetime_fn_instant c s ps Hs) as (s' & Hds & His & _).
+  destruct (datetime_fn_instant c e pe He) as (e' & Hde & Hie & _).
+  unfold datetime_between. rewrite Hds, Hde. cbn [bind]. rewrite His, Hie.
+  destruct (instant pe <? instant ps) eqn:E; [contra|].
+  cbn [draw_below]. destruct ((0 <=? num) && (num <? den)) eqn:En; [reflexivity|contra].
 Qed.
 
 Lemma datetime_between_possible c s e tz num den v :
@@ -756,60 +771,79 @@ Proof.
   destruct (datetime_fn c e) as [e'|] eqn:Ee; cbn [bind] in Edb; [|discriminate].
   destruct (instant e' <? instant s') eqn:E; [discriminate|].
   cbn [draw_below] in Edb. destruct ((0 <=? num) && (num <? den)); [|discriminate].
-  inversion Edb; subst us o.
-  assert (Hab : floor_sec (instant s') <= floor_sec (instant e')).
-  { unfold floor_sec, US. apply Z.div_le_mono; lia. }
-  pose proof (faker_dt_between_coded _ _ num den Hab Hnum) as Hb.
-  unfold dt_coded_lo, dt_coded_hi.
-  assert (Ho : option_eqb Z.eqb tz tz = true).
-  { destruct tz; cbn [option_eqb]; [apply Z.eqb_refl|reflexivity]. }
-  rewrite Ho. rewrite !andb_true_iff. splits; try reflexivity; lia.
+  destruct tz as [t|]; [|disc].
+  inversion Edb as [Hc]. clear Edb.
+  set (rc := faker_dt_between (floor_sec (instant s')) (floor_sec (instant e')) num den) in Hc.
+  unfold clamp in Hc. rewrite E in Hc.
+  assert (Ht : (t =? t) = true) by apply Z.eqb_refl.
+  destruct (rc <? instant s') eqn:E1.
+  - inversion Hc; subst us o. cbn [option_eqb].
+    rewrite Z.eqb_refl. rewrite (Z.eqb_refl (instant s')). cbn [orb andb].
+    rewrite orb_true_r. rewrite !andb_true_iff. splits; lia.
+  - destruct (instant e' <? rc) eqn:E2; inversion Hc; subst us o; cbn [option_eqb].
+    + rewrite Z.eqb_refl. rewrite (Z.eqb_refl (instant e')). rewrite !orb_true_r.
+      rewrite !andb_true_iff. splits; lia.
+    + rewrite Ht. cbn [orb]. rewrite !andb_true_iff. splits; lia.
 Qed.
 
-(* ------------------------------------------------------------------ refutations (known findings) *)
+(* ------------------------------------------------------------------ regressions: the witnesses of
+   the repaired defects K4, K10, K11, K12 now satisfy the property *)
 
-(* 2023-01-01T10:00:00 and 12:00:00 as microseconds of wall clock *)
+(* 2023-01-01T10:00:00 as microseconds of wall clock *)
 Definition w_10h : Z := 1672567200000000.
 
-(* K4: start 10:00:00-05:00 is the instant 15:00Z, end 18:00Z; the lowest draw returns 10:00Z *)
-Lemma refuted_offset :
+(* K4: start 10:00:00-05:00 (15:00Z), end 18:00Z: lowest and highest draw inside the bounds *)
+Lemma regression_offset :
   let c := mkClock 0 0 in
   let s := mkStamp w_10h (Some (-18000)) in
   let e := mkStamp (w_10h + 8 * 3600 * US) (Some 0) in
-  instant s <= instant e /\
-  exists v, datetime_between c (SStamp s) (SStamp e) (Some 0) (Some 0) 1024 = Ok (v, Some 0) /\
-            v < instant s.
-Proof. cbv zeta. split; [vm_compute; discriminate|]. eexists. split; [vm_compute; reflexivity|]. vm_compute. reflexivity. Qed.
+  datetime_between c (SStamp s) (SStamp e) (Some 0) (Some 0) 1024 = Ok (instant s, Some 0) /\
+  datetime_between c (SStamp s) (SStamp e) (Some 0) (Some 1023) 1024
+    = Ok (instant e - 10546875, Some 0).
+Proof. cbv zeta. split; vm_compute; reflexivity. Qed.
 
-(* K4, other direction: start 10:00+05:00 (05:00Z) .. end 06:00Z is a valid range, rejected *)
-Lemma refuted_offset_rejects_valid_range :
+(* K4: start 10:00+05:00 (05:00Z), end 06:00Z is accepted *)
+Lemma regression_offset_valid_range_accepted :
   let c := mkClock 0 0 in
   let s := mkStamp w_10h (Some 18000) in
   let e := mkStamp (w_10h - 4 * 3600 * US) (Some 0) in
-  instant s <= instant e /\
-  forall d, exists m, datetime_between c (SStamp s) (SStamp e) (Some 0) d 1024 = Err (DGE m).
-Proof. cbv zeta. split; [vm_compute; discriminate|]. intros d. eexists. vm_compute. reflexivity. Qed.
+  datetime_between c (SStamp s) (SStamp e) (Some 0) (Some 512) 1024
+    = Ok (instant s + 1800 * US, Some 0).
+Proof. cbv zeta. vm_compute. reflexivity. Qed.
 
-(* K10: equal bounds: the result may lie after the end *)
-Lemma refuted_equal_bounds :
+(* K10: equal bounds: the only possible value *)
+Lemma regression_equal_bounds :
   let c := mkClock 0 0 in
   let s := mkStamp w_10h None in
-  exists v, datetime_between c (SStamp s) (SStamp s) (Some 0) (Some 512) 1024 = Ok (v, Some 0) /\
-            instant s < v.
-Proof. cbv zeta. eexists. split; [vm_compute; reflexivity|]. vm_compute. reflexivity. Qed.
+  datetime_between c (SStamp s) (SStamp s) (Some 0) (Some 512) 1024 = Ok (instant s, Some 0).
+Proof. cbv zeta. vm_compute. reflexivity. Qed.
 
-(* K11: a start with a fractional second: the result may lie before the start *)
-Lemma refuted_subsecond_start :
+(* K11: start 10:00:00.9: the lowest draw is clamped to the start *)
+Lemma regression_subsecond_start :
   let c := mkClock 0 0 in
   let s := mkStamp (w_10h + 900000) None in
   let e := mkStamp (w_10h + 5 * US) None in
-  exists v, datetime_between c (SStamp s) (SStamp e) (Some 0) (Some 0) 1024 = Ok (v, Some 0) /\
-            v < instant s.
-Proof. cbv zeta. eexists. split; [vm_compute; reflexivity|]. vm_compute. reflexivity. Qed.
+  datetime_between c (SStamp s) (SStamp e) (Some 0) (Some 0) 1024 = Ok (instant s, Some 0).
+Proof. cbv zeta. vm_compute. reflexivity. Qed.
 
-(* K12: choice items with probabilities 0% and 50: every draw fails, although option 2 carries
-   all the weight *)
-Lemma refuted_zero_probability :
-  forall d den, exists e,
-    random_choice (RCChoices [(Some 0, 1); (Some 200, 2)]) d den = Err e.
-Proof. intros d den. eexists. reflexivity. Qed.
+(* K12: probabilities 0% and 50: option 2 for the lowest and the highest draw *)
+Lemma regression_zero_probability :
+  random_choice (RCChoices [(Some 0, 1); (Some 200, 2)]) (Some 0) 1024 = Ok 2 /\
+  random_choice (RCChoices [(Some 0, 1); (Some 200, 2)]) (Some 1023) 1024 = Ok 2.
+Proof. split; vm_compute; reflexivity. Qed.
+
+(* K13 witness: 10:00 .. 12:00 with timezone: False *)
+Lemma refuted_timezone_false :
+  let c := mkClock 0 0 in
+  let s := mkStamp w_10h None in
+  let e := mkStamp (w_10h + 7200 * US) None in
+  instant s <= instant e /\
+  forall num, 0 <= num < 1024 ->
+    exists x, datetime_between c (SStamp s) (SStamp e) None (Some num) 1024 = Err x.
+Proof.
+  cbv zeta. split; [vm_compute; discriminate|]. intros num Hnum. eexists.
+  apply datetime_between_naive_fails with (ps := mkStamp w_10h (Some 0))
+                                          (pe := mkStamp (w_10h + 7200 * US) (Some 0));
+    try reflexivity; try assumption.
+  vm_compute. discriminate.
+Qed.
